@@ -38,8 +38,6 @@ def check(pid, tier, replay):
     if "VALIDATED" not in out:
         raise vlib.ToolError("trace validation did not consume every line")
     delivered = sum(1 for t in vlib.printed_tuples(out, "STAT") if t[0] == "delivered")
-    if not replay and delivered == 0:
-        raise vlib.ToolError("vacuous run: no case delivered everything")
     seen = set()
     for f in sorted(set(tuple(x) for x in vlib.printed_tuples(out, "FAIL")), key=lambda x: int(x[1])):
         clause, line, detail = f[0], int(f[1]), (f[2] if len(f) > 2 else "")
@@ -49,6 +47,8 @@ def check(pid, tier, replay):
             continue
         seen.add((r["sc"], key))
         verdict.fail(key, {"clause": clause, "detail": detail, "trace_line": line, "case": json.loads(cases[r["sc"]]), "trace": [x for x in rows if x["sc"] == r["sc"]][:300]})
+    if not replay and delivered == 0 and not seen:
+        raise vlib.ToolError("vacuous run: no case delivered everything")
     ev = {
         "tier": tier, "level": "model_checking",
         "coverage": {"states": max(states, 1), "transitions": max(trans, 1), "traces_validated_against_impl": len(cases), "evaluations": len(rows),
